@@ -1012,6 +1012,9 @@ class _ChainHas(dict):
             return _via_nonmem_add_cmt
         if key == 'via_nonmem_ratio_constant_subs':
             return _via_nonmem_ratio_constant_subs
+        if key == 'chain_adds_dv':
+            dv_fns = {'add_indirect_effect', 'add_effect_compartment', 'set_direct_effect', 'add_metabolite', 'set_tmdd', 'set_baseline_effect'}
+            return lambda spec: bool(dv_fns & set(chain_names(spec)))
         if isinstance(key, str) and key.startswith('chain_has:'):
             fn = key[len('chain_has:'):]
             return lambda spec, _fn=fn: _fn in chain_names(spec)
